@@ -152,6 +152,29 @@ pub fn sites(tier: Tier) -> Vec<Site> {
             check(&s, i, "reserved-and-escape-letters", acc);
         }),
     {
+        // a caret unit at EVERY offset 0..=300 behind five kinds of filler (1-, 2- and 3-byte characters, a
+        // digit, a digit followed by letters) with three tails: block-wise or buffered implementations have
+        // their seams somewhere in there
+        let fillers: Vec<(&'static str, &'static str)> = vec![("", "a"), ("", "1"), ("", "\u{e9}"), ("", "\u{7f8e}"), ("1", "a"), ("^^", "a")];
+        let units = ["^1", "^^", "^x", "^^1", "^", "^v", "^8"];
+        let tails = ["", "z", "7"];
+        let n = (fillers.len() * 301 * units.len() * tails.len()) as u64;
+        Site::new("caret-unit-at-every-offset", n,
+            "6 fillers (1-/2-/3-byte characters, digits, a leading digit, a leading escaped caret) x 0..=300 repetitions x 7 caret units x 3 tails",
+            move |i, acc| {
+                let mut j = i as usize;
+                let t = tails[j % tails.len()]; j /= tails.len();
+                let u = units[j % units.len()]; j /= units.len();
+                let reps = j % 301; j /= 301;
+                let (head, fill) = fillers[j % fillers.len()];
+                let mut s = String::from(head);
+                for _ in 0..reps { s.push_str(fill); }
+                s.push_str(u);
+                s.push_str(t);
+                check(&s, i, "caret-unit-at-every-offset", acc);
+            })
+    },
+    {
         // every character of the repertoire right behind a caret, behind
         // an escaped caret, and in front of a digit: what counts as a colour digit, an escape letter or a
         // marker letter must not depend on look-alikes
